@@ -497,6 +497,19 @@ impl TypeChecker {
         scope: ScopeRef,
         name: ResolvedName,
     ) -> Result<(), String> {
+        let ident = Meta {
+            id: MetaId(0),
+            node: name.ident,
+        };
+        if self
+            .type_info
+            .scope_graph
+            .resolve_name(name.scope, &ident, false)
+            .is_none()
+        {
+            return Err(format!("Cannot import `{}`: no such item", name.ident));
+        }
+
         if self
             .type_info
             .scope_graph
